@@ -104,6 +104,18 @@ func (in *Interp) execList(list []ast.Stmt, st *State) []Exit {
 }
 
 func (in *Interp) exec(s ast.Stmt, st *State) []Exit {
+	exits := in.exec0(s, st)
+	for i := range exits {
+		if exits[i].ctl != cPanic && exits[i].st != nil && exits[i].st.panicked != "" {
+			exits[i].ctl = cPanic
+			exits[i].why = exits[i].st.panicked
+			exits[i].ret = nil
+		}
+	}
+	return exits
+}
+
+func (in *Interp) exec0(s ast.Stmt, st *State) []Exit {
 	in.steps++
 	switch s := s.(type) {
 	case *ast.BlockStmt:
@@ -441,7 +453,8 @@ func (in *Interp) stackAssign(lhs, rhs ast.Expr, st *State) ([]*State, bool) {
 					}
 					if cur.Empty {
 						e.st.notes = append(e.st.notes, "slice bounds out of range: pop of empty "+f)
-						in.panicExit(e.st)
+						e.st.panicked = e.st.notes[len(e.st.notes)-1]
+						out = append(out, e.st)
 						continue
 					}
 					e.st.popped = append(e.st.popped, f)
